@@ -138,6 +138,21 @@ def rule_R8_wild_closure(text):
     return text.replace('|_|', '|_e|'), n
 
 
+def rule_R10_serde(text):
+    """drop serde derives / field attributes (no extern crates in single-file Verus)"""
+    n = 0
+    new = re.sub(r'#\[serde\([^\]]*\)\]\s*', '', text)
+    if new != text:
+        n += 1
+    def fix(m):
+        items = [x.strip() for x in m.group(1).split(',') if x.strip() and x.strip() not in ('Serialize', 'Deserialize', 'serde::Serialize', 'serde::Deserialize')]
+        return '#[derive(%s)]' % ', '.join(items) if items else ''
+    new2 = re.sub(r'#\[derive\(([^)]*)\)\]', fix, new)
+    if new2 != new:
+        n += 1
+    return new2, n
+
+
 def rule_R17_ref_pattern_let_else(text):
     """`let Some(&x) = E else { .. };`  ->  `let Some(x__ref) = E else { .. }; let x = *x__ref;`
        `if let Some(&x) = E {`           ->  `if let Some(x__ref) = E { let x = *x__ref;`
@@ -331,6 +346,10 @@ class Unit:
                 rew = []
                 in_trait_impl = it.parent is not None and it.parent.kind == 'impl' and ' for ' in it.parent.name
                 rules = set(conf.get('rules', ['R1', 'R2', 'R8']))
+                if kind in ('struct', 'enum'):
+                    txt, n = rule_R10_serde(txt)
+                    if n:
+                        rew.append(('R10', n))
                 if 'R2' in rules and kind == 'fn':
                     txt, n = rule_R2_debug_assert_eq(txt)
                     if n:
